@@ -141,6 +141,21 @@ pub fn run(ctx: &mut Ctx) {
             }
         }
     }
+    // reduce's initial value is evaluated exactly once, whatever the accumulator becomes in the middle of the
+    // fold (null, false, 0, "", [] are values like any other); a tracer in the initial-value position
+    for x in [json!(null), json!(false), json!(0), json!(""), json!([])] {
+        if !ctx.mine() {
+            continue;
+        }
+        let keep = json!({"if": [{"===": [{"var": "current"}, "KEEP"]}, {"var": "accumulator"}, {"var": "current"}]});
+        for st in [keep, json!({"and": [{"var": "accumulator"}, {"var": "current"}]}), json!({"or": [{"var": "current"}, {"var": "accumulator"}]})] {
+            for coll in [json!([x, "KEEP"]), json!([1, x, "KEEP", 2]), json!([1, x, 2])] {
+                ctx.edge();
+                ctx.check("reduce:initial-value-once", &json!({"reduce": [{"var": "c"}, st, {"log": "INIT"}]}), &json!({"c": coll}));
+                ctx.check("reduce:initial-value-once:var", &json!({"reduce": [{"var": "c"}, st, {"var": "seed"}]}), &json!({"c": coll, "seed": {"var": "s"}, "s": "SECRET"}));
+            }
+        }
+    }
     // named scenarios
     if ctx.mine() {
         let scenarios = vec![
